@@ -7,6 +7,8 @@ package main
 // compared with the model's state (`ST`).
 
 import (
+	"crypto/sha256"
+	"bytes"
 	"context"
 	"encoding/hex"
 	"errors"
@@ -261,13 +263,37 @@ func (e *notaryEnv) state() {
 	e.prevState = cur
 }
 
+
+// provValid: the harness' own judgement of a signature, from recorded provenance (the way the Lean model
+// judges): `sig` was produced by the key of the wallet with address `addr` over exactly `digest`.
+func (e *notaryEnv) provValid(sig []byte, addr string, digest [32]byte) bool {
+	p, ok := sigLogGet(sig)
+	if !ok || len(sig) == 0 || p.digest != digest {
+		return false
+	}
+	for _, wl := range e.wallets {
+		if wl.Address() == addr {
+			return bytes.Equal(wl.Public, p.key)
+		}
+	}
+	return false
+}
+
+func (e *notaryEnv) trxValid(t *transaction.Transaction, withReceiver bool) bool {
+	d := sha256.Sum256(t.GetMessage())
+	if d != t.Hash || !e.provValid(t.IssuerSignature, t.IssuerAddress, d) {
+		return false
+	}
+	return !withReceiver || e.provValid(t.ReceiverSignature, t.ReceiverAddress, d)
+}
+
 func (e *notaryEnv) propose(t *transaction.Transaction) error {
 	p, err := transformers.TrxToProtoTrx(*t)
 	if err != nil {
 		panic(err)
 	}
 	e.acc.called = false
-	if t.VerifyIssuer(wallet.NewVerifier()) != nil {
+	if !e.trxValid(t, false) {
 		e.expectSame = "propose"
 	}
 	if len(t.Data) > 0 {
@@ -289,7 +315,7 @@ func (e *notaryEnv) confirm(t *transaction.Transaction) error {
 		panic(err)
 	}
 	e.acc.called = false
-	if t.VerifyIssuerReceiver(wallet.NewVerifier()) != nil {
+	if !e.trxValid(t, true) {
 		e.expectSame = "confirm"
 	}
 	f, b := e.flash.removes.Load(), e.cache.balOps.Load()
@@ -309,7 +335,7 @@ func signedHash(signer *wallet.Wallet, address string, data []byte) *pb.SignedHa
 
 func (e *notaryEnv) reject(r *pb.SignedHash) error {
 	e.acc.called = false
-	if len(r.Hash) != 32 || wallet.NewVerifier().Verify(r.Data, r.Signature, [32]byte(r.Hash), r.Address) != nil {
+	if len(r.Hash) != 32 || sha256.Sum256(r.Data) != [32]byte(r.Hash) || !e.provValid(r.Signature, r.Address, [32]byte(r.Hash)) {
 		e.expectSame = "reject"
 	}
 	f, b := e.flash.removes.Load(), e.cache.balOps.Load()
@@ -456,6 +482,9 @@ func init() {
 						}
 						m.Currency = uint64(1 + rnd.Intn(5))
 					}
+					if m.Currency == 0 && rnd.Intn(5) == 0 {
+						rec = iss // a contract a wallet addresses to itself: it still needs ITS receiver signature
+					}
 					t, _ := transaction.New("deal", m, fill(c, n, false), rec.Address(), recSigner{iss})
 					err := e.propose(&t)
 					if err == nil {
@@ -551,6 +580,9 @@ func init() {
 						default:
 							other = wl
 						}
+					}
+					if iss == nil {
+						iss = rec // self-addressed contract
 					}
 					var r *pb.SignedHash
 					beh := "honest"
